@@ -125,6 +125,14 @@ def _layout(a, layout):
         return big[sl]
     if layout == 'bigendian' and a.dtype.itemsize > 1:
         return a.astype(a.dtype.newbyteorder('>'))
+    if layout == 'negstride':
+        # the same values seen through negative strides along every axis
+        rev = tuple(slice(None, None, -1) for _ in a.shape)
+        return np.ascontiguousarray(a[rev])[rev]
+    if layout == 'readonly':
+        b = np.array(a, copy=True)
+        b.flags.writeable = False
+        return b
     return a
 
 
@@ -318,6 +326,11 @@ def _pm_case(ctx, idx):
         rows, cols = 32 + r.randint(0, 3), 32 + r.randint(0, 3)
     shape = {2: (rows, cols), 3: (n, rows, cols), 4: (n, rows, cols, M)}[ndim]
     layout = r.choice(['c', 'c', 'c', 'fortran', 'view', 'bigendian'])
+    rl = ctx.rng('pm-layout2', idx).random()       # further memory layouts (guide 3a), drawn from their own stream
+    if rl < 0.12:
+        layout = 'negstride'
+    elif rl < 0.24:
+        layout = 'readonly'
     explicit_pos = r.random() < 0.3
     profile = 'general'
     if not dtype.startswith('float') and r.random() < 0.3:
@@ -387,8 +400,11 @@ def _build_pm(ctx, d, r, shape):
     if sp in (2, 3):
         kw['image_flavor'] = [ImageFlavorValues.VOLUME, 'WHOLE_BODY'][d['idx'] // 4 % 2]
         kw['derived_pixel_contrast'] = ['QUANTITY', DerivedPixelContrastValues.QUANTITY][d['idx'] // 4 % 2]
+    before = np.ascontiguousarray(a).tobytes()
     st, pm = _try(ParametricMap, src, a, hd.UID(), 1, hd.UID(), 1, 'm', 'mm', '1', 'sn', False, maps,
                   r.choice([0.5, 128.0]), r.choice([1.0, 256.0]), transfer_syntax_uid=d['ts'], **kw)
+    if np.ascontiguousarray(a).tobytes() != before:
+        ctx.fail(dict(d, kind='pm'), 'the constructor modified the array it was given', site='pm-input-modified')
     return a, desc, pos, cs, st, pm
 
 
@@ -1088,7 +1104,7 @@ def _sc_random(ctx, reqs, pending):
         if ba == 1 and (rows * cols) % 8:
             cols = 8
         shape = (rows, cols, 3) if colour else (rows, cols)
-        layout = r.choice(['c', 'c', 'fortran', 'view'])
+        layout = r.choice(['c', 'c', 'fortran', 'view', 'negstride', 'readonly'])
         _check_sc(ctx, 'random', dt, ba, shape, pi, ts, r.choice(['PATIENT', 'SLIDE']), 100000 + i, layout=layout, reqs=reqs, pending=pending)
 
 
